@@ -98,6 +98,7 @@ type Config struct {
 	PatienceMs  int
 	BudgetS     int
 	FreeSched   bool
+	Thorough    bool
 	Known       []string
 	Seed        int
 	Verbose     bool
@@ -150,6 +151,7 @@ type Machine struct {
 	side        map[*Value]interface{} // side tables for sync primitives keyed by slot address
 	clock       *Term
 	ghost       map[string]Value
+	elemOf      map[*Value]elemRef
 	obsNames    []string
 	obsTerms    []*Term
 	accessLog   *raceLog
@@ -274,6 +276,7 @@ func (m *Machine) runPath(prefix []int) {
 	m.ghost = map[string]Value{}
 	m.obsNames = nil
 	m.obsTerms = nil
+	m.elemOf = map[*Value]elemRef{}
 	m.accessLog = nil
 	m.localChecks = map[string]*CheckStat{}
 	m.outcome = PathOutcome{Kind: "ok"}
@@ -511,7 +514,10 @@ func (m *Machine) freshVar(name string, s Sort, lo, hi *big.Int) *Term {
 	return v
 }
 
-// concretize forks over the feasible concrete values of an Int term (small ranges only).
+// concretize forks over the feasible concrete values of an Int term. Small intervals are
+// split directly; otherwise the feasible values are enumerated in increasing order, each
+// found by a deterministic binary search with the solver (so that a replayed prefix sees the
+// same candidates), up to 64 values.
 func (m *Machine) concretize(t *Term, what string) int64 {
 	if t.IsConst() {
 		return t.Int64()
@@ -531,7 +537,34 @@ func (m *Machine) concretize(t *Term, what string) int64 {
 			return hi
 		}
 	}
-	panic(pathAbort{"unsupported", "concretize: term has no small interval: " + what + " " + t.String()})
+	if t.lo == nil || t.hi == nil || !t.lo.IsInt64() || !t.hi.IsInt64() {
+		panic(pathAbort{"unsupported", "concretize: unbounded term: " + what + " " + t.String()})
+	}
+	from := t.lo.Int64()
+	hi := t.hi.Int64()
+	for n := 0; n < 64; n++ {
+		// smallest feasible value >= from
+		if m.checkSat(tCmp(">=", t, mkInt64(from))) != Sat {
+			break
+		}
+		lo, up := from, hi
+		for lo < up {
+			mid := lo + (up-lo)/2
+			if m.checkSat(tCmp(">=", t, mkInt64(from)), tCmp("<=", t, mkInt64(mid))) == Sat {
+				up = mid
+			} else {
+				lo = mid + 1
+			}
+		}
+		if m.branch(tEq(t, mkInt64(lo))) {
+			return lo
+		}
+		from = lo + 1
+		if from > hi {
+			break
+		}
+	}
+	panic(pathAbort{"unsupported", "concretize: more than 64 feasible values: " + what})
 }
 
 // ---------- harness primitives ----------
